@@ -247,11 +247,13 @@ func run(c Case) (pbt.Outcome, error) {
 			ac.ReportCount(int64(i))
 			want = append(want, m3h.Canon(m3thrift.Metric{Name: "age", Value: m3thrift.MetricValue{MetricType: m3thrift.MetricType_COUNTER, Count: int64(i)}}))
 			r.Flush()
-			if i%200 == 199 {
-				// flow control: every flush so far yields at least one datagram; do not let more than
-				// a couple of hundred small datagrams pile up in the sink's socket buffer
-				if !sink.WaitCount(i+1, 10*time.Second) {
-					return out, fmt.Errorf("harness: sink did not receive the first %d pre-ageing datagrams within 10s (machine too busy?)", i+1)
+			if i%50 == 49 {
+				// flow control: every flush so far yields at least one datagram (several when the
+				// packet size is minimal and the reporter's own metrics need packets of their own);
+				// wait until the worker has emitted them and the sink has received everything
+				// emitted, so that only a few hundred small datagrams can ever sit in the socket buffer
+				if !sink.WaitCount(i+1, 10*time.Second) || !syncSink() {
+					return out, fmt.Errorf("harness: sink did not keep up with the pre-ageing datagrams (machine too busy?)")
 				}
 			}
 		}
